@@ -31,7 +31,7 @@ AddrSeqs == {<<>>, <<"a1">>, <<"a1", "a2">>}
 EpEntries == [id : Ids, addrs : {<<>>, <<"a1">>}, md : {"m1"}]
 EpSeqs == UNION {[1..n -> EpEntries] : n \in 0..MaxEps}
 Shapes == [prev : {"none", "A"}, ents : {"noents", "E1"}, prov : {Prov}, addrs : AddrSeqs, md : {"m1"}, rm : BOOLEAN,
-           hasExt : BOOLEAN, ctx : {"c1"}, ov : BOOLEAN, eps : EpSeqs]
+           hasExt : BOOLEAN, ctx : {"c0", "c1"}, ov : BOOLEAN, eps : EpSeqs]      \* "c0" = empty context ID
 WellShaped(s) == /\ (~s.hasExt => s.eps = <<>> /\ ~s.ov)
                  /\ ~(s.rm /\ s.hasExt)        \* the library refuses to sign those
 
